@@ -99,18 +99,36 @@ def do_write(fs, path, df, op, scheme, partition_on, extra=None):
     if extra:
         kw.update(extra)
     kw.update(io(fs))
+    kw.setdefault('write_index', False)
     write(path, df, file_scheme=scheme, partition_on=list(partition_on),
-          write_index=False, **kw)
+          **kw)
+
+
+def chunks_of(df, cuts):
+    """A one-shot generator of consecutive pieces of df (cuts: fractions)."""
+    n = len(df)
+    edges = sorted({min(n, max(0, int(c * n))) for c in cuts} | {0, n})
+    if len(edges) == 1:
+        edges = [0, 0]
+    return (df.iloc[a:b] for a, b in zip(edges[:-1], edges[1:]))
 
 
 def do_append(fs, path, df, op, scheme, partition_on, pf=None):
-    """Append through one of the two entry points; returns the handle used
-    (or None)."""
+    """Append through one of the entry points - write(append=True),
+    ParquetFile.write_row_groups(frame), write_row_groups(iterator of
+    frames); returns the handle used (or None)."""
     kw = w_opts(op)
-    if op.get('entry') == 'wrg':
+    if op.get('entry') in ('wrg', 'wrg-iter'):
         if pf is None:
             pf = open_pf(path, fs)
-        pf.write_row_groups(df, kw.get('row_group_offsets'),
+        if df.index.name is not None:
+            # write_row_groups writes columns only: a written index is an
+            # ordinary column of the stored data
+            df = df.reset_index()
+        data = df
+        if op.get('entry') == 'wrg-iter':
+            data = chunks_of(df, op.get('cuts') or ())
+        pf.write_row_groups(data, kw.get('row_group_offsets'),
                             compression=kw.get('compression'),
                             stats=kw.get('stats', 'auto'), **io(fs))
         return pf
@@ -130,6 +148,9 @@ def referenced_files(pf):
 
 class ReaderCrashed(Exception):
     """The reader killed the interpreter (signal) on this dataset."""
+
+
+READ_KW = {}        # extra to_pandas() arguments of the current run
 
 
 def read_all(fs, path):
@@ -168,13 +189,65 @@ def read_all(fs, path):
     raise ReaderFailed('%s: %s' % (out[1], out[2]))
 
 
+class OtherProcessDied(Exception):
+    """The forked "other process" was killed by a signal."""
+
+
+def in_other_process(fs, fn):
+    """Run fn() as *another process* would: in a forked child, so that none of
+    the module-level state it builds (caches, memoised handles) exists in this
+    process afterwards, and nothing this process has cached is refreshed.
+    What the child did to a SimFS store is shipped back (files, directories,
+    event log, monitor hits); a LocalFS directory is shared anyway.
+    Returns ('ok', value) or ('exc', type name, message)."""
+    n0 = len(getattr(fs, 'log', ()))
+    r, w = os.pipe()
+    pid = os.fork()
+    if pid == 0:
+        code = 0
+        try:
+            os.close(r)
+            try:
+                out = ('ok', fn())
+            except BaseException as e:
+                out = ('exc', type(e).__name__, str(e))
+            state = None
+            if not is_local(fs):
+                state = {'files': fs.files, 'dirs': fs.dirs,
+                         'log': fs.log[n0:], 'seq': fs.seq,
+                         'hits': fs.hits, 'fired': fs.fired,
+                         'op_calls': fs.op_calls, 'reads': fs.reads}
+            with os.fdopen(w, 'wb') as f:
+                pickle.dump((out, state), f)
+        except BaseException:
+            code = 3
+        finally:
+            os._exit(code)
+    os.close(w)
+    with os.fdopen(r, 'rb') as f:
+        blob = f.read()
+    _, status = os.waitpid(pid, 0)
+    if os.WIFSIGNALED(status) or not blob:
+        raise OtherProcessDied('signal %s / exit %s' % (
+            os.WTERMSIG(status) if os.WIFSIGNALED(status) else '-',
+            os.WEXITSTATUS(status) if os.WIFEXITED(status) else '-'))
+    out, state = pickle.loads(blob)
+    if state is not None:
+        fs.files = {p: bytearray(b) for p, b in state['files'].items()}
+        fs.dirs = set(state['dirs'])
+        fs.log.extend(state['log'])
+        for k in ('seq', 'hits', 'fired', 'op_calls', 'reads'):
+            setattr(fs, k, state[k])
+    return out
+
+
 class ReaderFailed(Exception):
     """Exception raised by the reader inside the isolated child."""
 
 
 def _read_all(fs, path):
     pf = open_pf(path, fs)
-    df = pf.to_pandas()
+    df = pf.to_pandas(**READ_KW)
     canon = frames.canon_frame(df)
     return {
         'canon': canon,
